@@ -110,6 +110,11 @@ def check(case):
   size = case['cmd'][1] if kind == 'download' else 0
   dev = fk.ScriptedBootloader(packets_of(case['seq'], size, case.get('texts')))
   fc = fp.FastbootCommands(dev)
+  if case.get('via') == 'device':
+    # the documented way in: FastbootDevice.connect(handle) (what usb.FastbootPlug hands to phases); no retries, so that
+    # every call maps to one command like on FastbootCommands itself
+    from openhtf.plugs.usb import fastboot_device  # pylint: disable=g-import-not-at-top
+    fc = fastboot_device.FastbootDevice.connect(dev, num_retries=0)
   infos, progress = [], []
 
   def info_cb(msg):
@@ -220,9 +225,17 @@ def check(case):
           len(image_packets), case['seq']))
   elif image_packets:
     r.bad('C16/extra-packets', 'extra packets %r' % (image_packets[:3],))
+  if case.get('via') == 'device':
+    try:
+      fc.close()
+    except Exception as e:  # pylint: disable=broad-except
+      r.bad('C16/device-wrapper/close-raised/%s' % type(e).__name__, 'FastbootDevice.close(): %r' % (e,))
+    else:
+      if not dev.closed:
+        r.bad('C16/device-wrapper/handle-not-closed', 'FastbootDevice.close() left the USB handle open')
   n_info_before_final = len(ref['infos'])
   r.nontrivial = n_info_before_final >= 1 or kind == 'download'
-  r.classes = ['cmd:' + kind, 'result:' + (want[1] if want[0] == 'exc' else 'ok'), 'seqlen:%d' % len(case['seq'])] + (
+  r.classes = ['via:' + case.get('via', 'commands'), 'cmd:' + kind, 'result:' + (want[1] if want[0] == 'exc' else 'ok'), 'seqlen:%d' % len(case['seq'])] + (
       ['size:%d' % size, 'progress:' + case.get('progress', 'none'), 'cb:' + case.get('cb_kind', 'function')] if kind == 'download' else [])
   return r
 
@@ -235,6 +248,8 @@ def exhaustive_cases(maxlen):
     for seq in itertools.product(ALPHABET, repeat=n):
       for ci, cmd in enumerate(COMMANDS):
         yield {'cmd': cmd, 'seq': list(seq), 'progress': 'none'}
+        if n <= 2:
+          yield {'cmd': cmd, 'seq': list(seq), 'progress': 'none', 'via': 'device'}
         if n and 'DATA=' not in seq and 'DATA!' not in seq:
           # the same reply sequence with device-chosen texts, rotated through TEXTS
           rot = (ci + 3 * n + sum(map(len, seq))) % len(TEXTS)
@@ -253,10 +268,14 @@ def drawn_cases(draw):
   texts = draw(st.lists(st.one_of(st.sampled_from(TEXTS), st.text(alphabet=[chr(i) for i in range(32, 256)] + ['%', '%', '\n'], max_size=60)),
                         min_size=1, max_size=8))
   if draw(st.booleans()):
-    return {'cmd': draw(st.sampled_from(COMMANDS)), 'seq': seq, 'progress': 'none', 'texts': texts}
-  size = draw(st.one_of(st.sampled_from(SIZES), st.integers(0, 4 * CHUNK)))
-  return {'cmd': ['download', size, draw(st.booleans())], 'seq': seq, 'progress': draw(st.sampled_from(['none', 'rec', 'raise'])),
-          'cb_kind': draw(st.sampled_from(CB_KINDS)), 'texts': texts}
+    case = {'cmd': draw(st.sampled_from(COMMANDS)), 'seq': seq, 'progress': 'none', 'texts': texts}
+  else:
+    size = draw(st.one_of(st.sampled_from(SIZES), st.integers(0, 4 * CHUNK)))
+    case = {'cmd': ['download', size, draw(st.booleans())], 'seq': seq, 'progress': draw(st.sampled_from(['none', 'rec', 'raise'])),
+            'cb_kind': draw(st.sampled_from(CB_KINDS)), 'texts': texts}
+  if draw(st.integers(0, 3)) == 0:
+    case['via'] = 'device'
+  return case
 
 
 
